@@ -95,50 +95,60 @@ def check_directional(ctx, R="C07.directional"):
     helper = model.func(VE, "directionalSpecHelper")
     vs = specs.extract_variants(model, "directionalSpecHelper")
     lambdas = {}
+    hp = [a.arg for a in helper.args.args]
+    if len(hp) != 6:
+        raise AnalysisError("shape not recognised: parameters of directionalSpecHelper")
+    _syntax, pos, dist, _axis, tcp, mkp = hp
+    # the three offset components: the targets of `... = toComponents(...)`
+    comps = [n.targets[0] for n in walk_local(helper) if isinstance(n, ast.Assign) and isinstance(n.targets[0], ast.Tuple) and isinstance(n.value, ast.Call) and dotted(n.value.func) == tcp]
+    if len(comps) != 1 or len(comps[0].elts) != 3 or not all(isinstance(e, ast.Name) for e in comps[0].elts):
+        raise AnalysisError("shape not recognised: offset components of directionalSpecHelper")
+    dxyz = [e.id for e in comps[0].elts]
     for n in walk_local(helper):
-        if isinstance(n, ast.Assign) and isinstance(n.value, ast.Lambda) and isinstance(n.targets[0], ast.Name) and n.targets[0].id == "val":
+        if isinstance(n, ast.Assign) and isinstance(n.value, ast.Lambda) and isinstance(n.targets[0], ast.Name):
             conds = [(unparse(t), p) for t, p in lib.guard_tests(n, helper)]
             lambdas[tuple(conds)] = n.value
     if len(lambdas) != 3:
         raise AnalysisError("shape not recognised: the three value lambdas of directionalSpecHelper")
     for conds, lam in lambdas.items():
-        kind = "object" if ("isA(pos, Object)", True) in conds else "op" if ("isA(pos, OrientedPoint)", True) in conds else "vector"
+        kind = "object" if (f"isA({pos}, Object)", True) in conds else "op" if (f"isA({pos}, OrientedPoint)", True) in conds else "vector"
         d = lam.body
         if not isinstance(d, ast.Dict):
             raise AnalysisError("shape not recognised: directionalSpecHelper value lambda")
         items = {k.value: v for k, v in zip(d.keys, d.values)}
         posv = items.get("position")
-        mk = [c for c in ast.walk(posv) if isinstance(c, ast.Call) and dotted(c.func) == "makeOffset"]
+        mk = [c for c in ast.walk(posv) if isinstance(c, ast.Call) and dotted(c.func) == mkp]
         if len(mk) != 1:
             ctx.finding(R, lam, f"helper {kind} makeOffset", f"directionalSpecHelper ({kind} reference) does not compute the position through makeOffset")
             continue
         a = [unparse(x) for x in mk[0].args]
         sv = lam.args.args[0].arg
         if kind == "object":
+            dims = mk[0].args[1] if len(mk[0].args) > 1 else None
+            if isinstance(dims, ast.Name):
+                dims = lib.local_value(helper, dims.id)
             good = (
                 isinstance(posv, ast.Call)
-                and unparse(posv.func) == "pos.relativePosition"
+                and unparse(posv.func) == f"{pos}.relativePosition"
                 and a[0] == sv
-                and a[1] == "obj_dims"
-                and a[2] == f"makeContactOffset(dist, {sv}.contactTolerance)"
-                and a[3:] == ["dx", "dy", "dz"]
-                and unparse(items.get("parentOrientation")) == "pos.orientation"
+                and a[2] == f"makeContactOffset({dist}, {sv}.contactTolerance)"
+                and a[3:] == dxyz
+                and unparse(items.get("parentOrientation")) == f"{pos}.orientation"
             )
-            dims = lib.local_value(helper, "obj_dims")
-            good = good and dims is not None and unparse(dims) == "(pos.width, pos.length, pos.height)"
+            good = good and dims is not None and unparse(dims) == f"({pos}.width, {pos}.length, {pos}.height)"
         elif kind == "op":
             good = (
                 isinstance(posv, ast.Call)
-                and unparse(posv.func) == "pos.relativePosition"
-                and a == [sv, "(0, 0, 0)", "0", "dx", "dy", "dz"]
-                and unparse(items.get("parentOrientation")) == "pos.orientation"
+                and unparse(posv.func) == f"{pos}.relativePosition"
+                and a == [sv, "(0, 0, 0)", "0"] + dxyz
+                and unparse(items.get("parentOrientation")) == f"{pos}.orientation"
             )
         else:
             good = (
                 isinstance(posv, ast.Call)
-                and unparse(posv.func) == "pos.offsetLocally"
+                and unparse(posv.func) == f"{pos}.offsetLocally"
                 and unparse(posv.args[0]) == f"{sv}.orientation"
-                and a == [sv, "(0, 0, 0)", "0", "dx", "dy", "dz"]
+                and a == [sv, "(0, 0, 0)", "0"] + dxyz
                 and "parentOrientation" not in items
             )
         if good:
